@@ -5,6 +5,7 @@ import (
 	"fmt"
 	"math/rand/v2"
 	"net"
+	"strings"
 	"sync/atomic"
 	"time"
 
@@ -466,4 +467,238 @@ func probeCheckpoint(env *chainlab.Env, addr string, cp *chainlab.Node) string {
 		return "read response: " + err.Error()
 	}
 	return fmt.Sprintf("ok: block %v", rq.Block.ID())
+}
+
+// runHonestPrefix: a Byzantine peer offers the honest chain A1..Ak extended by
+// one properly mined block X whose body is invalid. The victim validates and
+// stores A1..Ak, fails at X, rolls back and bans the peer. An honest peer whose
+// tip is exactly Ak (it never grows during the wait) then offers A1..Ak, which
+// the victim has already validated; the victim must adopt Ak.
+//
+// cc.Pos carries k ("k=1", "k=several", "k=chunks"), cc.HonestDials the order
+// (true: the honest peer is connected and in sync with the victim before the
+// Byzantine episode and obtains A1..Ak afterwards; false: it connects after).
+func runHonestPrefix(r *mon.Run, cc c11Case) {
+	rng := r.RNG(cc.Stream)
+	prof := chainlab.Profile{MaxTxns: 3}
+	var p chainlab.Params
+	trunk := 0
+	switch cc.Regime {
+	case "below":
+		p = chainlab.RandomParams("mix", rng)
+		p.Allow = uint64(3 + rng.IntN(5))
+		p.Require = p.Allow + 400
+		p.FinalCut = p.Require + 2
+		trunk = int(p.Allow) + 1 + rng.IntN(5)
+		cc.NetRegime = "mix-late-require"
+	case "across":
+		// the common ancestor lies below the require height (AddBlocks path), the
+		// offered blocks cross it
+		p = chainlab.RandomParams("mix", rng)
+		p.Allow = uint64(3 + rng.IntN(4))
+		trunk = int(p.Allow) + 2 + rng.IntN(4)
+		p.Require = uint64(trunk + 1 + rng.IntN(2))
+		p.FinalCut = p.Require + 2
+		cc.NetRegime = "mix-require-inside-offer"
+	default:
+		if rng.IntN(2) == 0 {
+			p = chainlab.RandomParams("v2only", rng)
+			trunk = 2 + rng.IntN(8)
+			cc.NetRegime = "v2only"
+		} else {
+			p = chainlab.RandomParams("mix", rng)
+			trunk = int(p.Require) + 1 + rng.IntN(6)
+			cc.NetRegime = "mix"
+		}
+	}
+	cc.Params = p
+	env := chainlab.NewEnv(p)
+	cc.InitialTarget = []byte{0x08, 0x10, 0x20, 0xFF}[rng.IntN(4)]
+	env.Net.InitialTarget = types.BlockID{cc.InitialTarget}
+	t := chainlab.NewTree(env, rng)
+	k := 1
+	switch cc.Pos {
+	case "k=several":
+		k = 2 + rng.IntN(7)
+	case "k=chunks":
+		k = 101 + rng.IntN(30)
+	}
+	v0 := p2plab.GrowMixed(t, t.Root, trunk, 2, prof)
+	ak := p2plab.GrowMixed(t, v0, k, 3, prof)
+	var x *chainlab.Node
+	for try := 0; try < 6 && x == nil; try++ {
+		if c := p2plab.InvalidChild(t, ak, rng); c != nil && !c.Future {
+			x = c
+		}
+	}
+	if x == nil {
+		r.Count("cases_skipped:no body-invalid extension", 1)
+		return
+	}
+	cc.VictimTip, cc.VictimHeight, cc.HonestTip, cc.HonestHeight, cc.ByzTip = v0.Idx, v0.Height, ak.Idx, ak.Height, x.Idx
+	slot := p2plab.NextSlot()
+	prng := rand.New(rand.NewPCG(uint64(r.Seed)+919, cc.Stream))
+	mk := func(name string, i int, tip *chainlab.Node) (*p2plab.Node, error) {
+		return p2plab.NewNode(p2plab.NodeOpts{Name: name, IP: p2plab.HonestIP(slot, i), Tree: t, Tip: tip, KeepLog: name == "victim",
+			SyncInterval: time.Duration(50+prng.IntN(50)) * time.Millisecond, DiscoveryInterval: time.Hour, RPCTimeout: 2 * time.Second})
+	}
+	honestFirst := cc.HonestDials
+	hStart := ak
+	if honestFirst {
+		hStart = v0
+	}
+	v, err1 := mk("victim", 0, v0)
+	h, err2 := mk("honest", 1, hStart)
+	if err1 != nil || err2 != nil {
+		r.Inconclusive(fmt.Sprintf("C11 case %d: cannot build nodes: %v %v", cc.Stream, err1, err2))
+		return
+	}
+	nodes := []*p2plab.Node{v, h}
+	v.Start()
+	h.Start()
+	if honestFirst {
+		if err := h.Connect(v.Addr); err != nil {
+			r.Count("honest_connect_errors", 1)
+		}
+		synced := false
+		for i := 0; i < 400 && !synced; i++ {
+			a, _ := v.PeerSynced(h.Addr)
+			b, _ := h.PeerSynced(v.Addr)
+			synced = a && b
+			time.Sleep(25 * time.Millisecond)
+		}
+		if !synced {
+			r.Count("cases_skipped:peers never marked each other synced", 1)
+			closeAll(r, nodes)
+			return
+		}
+	}
+	b1, err := p2plab.NewByz("byz1", p2plab.ByzIP(slot, 0), t, x)
+	if err != nil {
+		r.Inconclusive(fmt.Sprintf("C11 case %d: cannot build byzantine peer: %v", cc.Stream, err))
+		closeAll(r, nodes)
+		return
+	}
+	defer b1.Close()
+	if err := b1.Dial(v.Addr); err != nil {
+		r.Count("byzantine_dial_errors", 1)
+	}
+	// the Byzantine episode is over when the peer has been banned
+	episode := false
+	for i := 0; i < 800; i++ {
+		v.Mon.Sample()
+		if len(v.PS.BansFor(b1.IP)) > 0 {
+			episode = true
+			break
+		}
+		time.Sleep(25 * time.Millisecond)
+	}
+	time.Sleep(time.Duration(50+prng.IntN(150)) * time.Millisecond)
+	tipAfterEpisode := v.Mon.Sample()
+	rolledBack := false
+	for _, c := range v.Mon.Calls() {
+		if c.Kind == "AddBlocks" && strings.Contains(c.Err, "reorg failed") {
+			rolledBack = true
+		}
+	}
+	b1.Close()
+	// the honest peer offers exactly A1..Ak and never grows afterwards
+	if honestFirst {
+		if err := p2plab.Preload(h.CM, v0.Height, ak); err != nil {
+			r.Inconclusive(fmt.Sprintf("C11 case %d: honest peer rejected the valid chain: %v", cc.Stream, err))
+		}
+	} else if err := h.Connect(v.Addr); err != nil {
+		r.Count("honest_connect_errors", 1)
+	}
+	t0 := time.Now()
+	reached := false
+	var announcing atomic.Bool
+	for iter := 1; time.Since(t0) < c11ProgressBound; iter++ {
+		v.Mon.Sample()
+		if v.CM.Tip().ID == ak.ID {
+			reached = true
+			break
+		}
+		if iter%4 == 0 && announcing.CompareAndSwap(false, true) {
+			go func() { defer announcing.Store(false); h.Announce() }()
+		}
+		if iter%20 == 0 && !v.HasPeer(h.Addr) && !h.HasPeer(v.Addr) {
+			if banned, _ := v.PS.Banned(h.IP); !banned {
+				r.Count("honest_redials", 1)
+				h.Connect(v.Addr)
+			}
+		}
+		time.Sleep(50 * time.Millisecond)
+	}
+	progressMS := time.Since(t0).Milliseconds()
+	var peersNow []string
+	for _, p := range v.S.Peers() {
+		peersNow = append(peersNow, fmt.Sprintf("%s synced=%v err=%v", p.Addr(), p.Synced(), p.Err()))
+	}
+	hTipNow := h.Mon.Sample()
+	_, knowsAk := v.CM.State(ak.ID)
+	allSynced := len(v.S.Peers()) > 0
+	for _, p := range v.S.Peers() {
+		if !p.Synced() || p.Err() != nil {
+			allSynced = false
+		}
+	}
+	closeAll(r, nodes)
+	r.Eval()
+	order := "honest-after"
+	if honestFirst {
+		order = "honest-first"
+	}
+	row := fmt.Sprintf("%s:%s:%s", cc.Regime, cc.Pos, order)
+	detail := map[string]any{"victim": reportOf(v), "honest": reportOf(h), "victim_peers_at_end": peersNow, "byzantine_counters": b1.Counters(),
+		"victim_rolled_back_a_failed_reorg": rolledBack, "victim_log_tail": v.LogTail(), "tree": summarize(t)}
+	if tipAfterEpisode != nil {
+		detail["victim_tip_after_byzantine_episode"] = tipAfterEpisode.Idx
+	}
+	for kk, n := range b1.Counters() {
+		r.Count("byzantine_"+kk, n)
+	}
+	for _, br := range v.PS.Bans() {
+		r.Count("bans_observed:"+banReasonClass(br.Reason), 1)
+		r.Count("bans_observed_total", 1)
+	}
+	if !episode {
+		r.Count("faults_not_delivered:honest-prefix-then-invalid-extension:"+row, 1)
+	} else {
+		r.Count("faults_delivered", 1)
+		r.Count("honest_prefix_episodes", 1)
+		if rolledBack {
+			r.Count("honest_prefix_episodes_with_rolled_back_reorg", 1)
+		}
+		r.Distinct("honest-prefix/" + row)
+		r.SetAdd("fault_rows_delivered", "honest-prefix-then-invalid-extension/"+row)
+		if hTipNow != ak {
+			r.Inconclusive(fmt.Sprintf("C11 case %d: the honest peer's tip moved away from Ak", cc.Stream))
+		} else if reached {
+			r.Count("cases_with_honest_peer_reaching_honest_tip", 1)
+			r.Count("honest_prefix_adopted", 1)
+			if progressMS >= 10000 {
+				r.Count("honest_prefix_adopted_after_more_than_10s", 1)
+			}
+		} else {
+			sig := "stall:honest-prefix-after-byzantine-extension:" + row
+			// structural sub-class: the honest peer was already marked synced when it
+			// obtained A1..Ak, the victim rolled a failed reorg back and therefore
+			// knows (has validated and stored) Ak, and every peer is still marked
+			// synced without error: its announcements of Ak are dropped as "already
+			// seen" and nothing makes the victim poll it again
+			if honestFirst && rolledBack && knowsAk && allSynced {
+				sig = "stall:announcement-of-known-validated-block-ignored:" + cc.Regime
+			}
+			detail["victim_knows_ak"] = knowsAk
+			fmt.Printf("note: C11 stream=%d %s (%s) rolled_back=%v peers=%v\n", cc.Stream, sig, row, rolledBack, peersNow)
+			r.Violation(sig, "after rejecting a Byzantine extension of the honest chain (invalid block on top of A1..Ak) the victim did not adopt A1..Ak offered by an honest peer whose tip is exactly Ak", cc, detail)
+		}
+	}
+	for _, n := range nodes {
+		for _, fd := range n.Mon.Final() {
+			r.Violation(fd.Sig+":honest-prefix", fd.What, cc, map[string]any{"finding": fd.Detail, "run": detail})
+		}
+		countMonitor(r, n)
+	}
 }
